@@ -94,6 +94,17 @@ class Pool:
         return cl[0] if rng is None else rng.choice(cl)
 
 
+def zero_pad(s, rng):
+    """a digit run that is exactly "0" written "00" (the padding of a zero is the edge of every "strip the leading
+    zeros" rule)"""
+    import re
+    runs = [m.span() for m in re.finditer(r"[0-9]+", s) if m.group(0) == "0"]
+    if not runs:
+        return s
+    i, j = rng.choice(runs)
+    return s[:i] + "00" + s[j:]
+
+
 def letter_variant(s, rng):
     idx = [i for i, ch in enumerate(s) if ch.isalpha() and ch.isascii()]
     if idx:
@@ -123,11 +134,26 @@ def build_pool(name, rng, size=40, respell=0.3, need_hash=True):
             except Exception:  # noqa: BLE001
                 pass
         if rng.random() < respell:
-            try:
-                s2 = S.RESPELL[name](s, rng)
-                v2 = S.make(name, s2)
-            except Exception:
-                v2 = None
-            if v2 is not None:
-                p.insert(s2, v2)
+            # other spellings of the SAME version (up to two), found among a few respellings; a respelling that
+            # turns out to be another version is inserted as such
+            alts = 0
+            for attempt in range(9):
+                try:
+                    s2 = zero_pad(s, rng) if attempt == 0 else S.RESPELL[name](s, rng)
+                    v2 = S.make(name, s2)
+                except Exception:  # noqa: BLE001
+                    continue
+                if s2 == s:
+                    continue
+                try:
+                    same = bool(v2 == v)
+                except Exception:  # noqa: BLE001
+                    same = False
+                if same and alts < 2:
+                    if p.insert(s2, v2):
+                        alts += 1
+                elif not same and rng.random() < 0.15:
+                    p.insert(s2, v2)
+                if alts >= 2:
+                    break
     return p
